@@ -50,7 +50,9 @@ def ops_for(bs, level):
 
 import re
 def inline_class(cfg, msg):
-    return None        # the inline-data defects that used to be classified here were repaired (known_findings.json, fixed: entries)
+    # (the other inline-data defects that used to be classified here were repaired: known_findings.json, fixed: entries)
+    if cfg.startswith('inline') and re.search(r'^after p:\w:0:-1: file \w has size 0, model says \d+', msg): return 'inline-punch-to-end-truncates'
+    return None
 
 def run_batch(j):
     cfg, hists = j
